@@ -131,7 +131,19 @@ type c15Split struct {
 }
 
 func genVarintBytes(t *rapid.T) []byte {
-	switch rapid.IntRange(0, 5).Draw(t, "vclass") {
+	switch rapid.IntRange(0, 8).Draw(t, "vclass") {
+	case 6: // overflows 32 bits but its low 32 bits are a small length that the following bytes cover
+		low := rapid.ByteRange(0, 6).Draw(t, "low")
+		hi := rapid.SampledFrom([]byte{0x10, 0x20, 0x30, 0x70, 0x7f}).Draw(t, "hi")
+		return []byte{low | 0x80, 0x80, 0x80, 0x80, hi}
+	case 7: // over-long (6+ bytes) with a small low part
+		low := rapid.ByteRange(0, 6).Draw(t, "low")
+		n := rapid.IntRange(4, 8).Draw(t, "n")
+		b := append([]byte{low | 0x80}, bytes.Repeat([]byte{0x80}, n)...)
+		return append(b, rapid.SampledFrom([]byte{0x00, 0x01}).Draw(t, "last"))
+	case 8: // values next to 2^32 and 2^31: end-offset arithmetic in 32 bits wraps here
+		v := rapid.SampledFrom([]uint32{1<<32 - 1, 1<<32 - 2, 1<<32 - 5, 1<<32 - 6, 1<<32 - 40, 1 << 31, 1<<31 - 1, 1<<31 + 5}).Draw(t, "near")
+		return model.PutUvarint32(v)
 	case 0: // 5-byte varint with high bits set in last byte
 		return []byte{0xff, 0xff, 0xff, 0xff, rapid.ByteRange(0x01, 0x7f).Draw(t, "last")}
 	case 1: // 6+ byte varint
